@@ -2,6 +2,7 @@ import MechVerif.Driver.Util
 import MechVerif.Model.Crc
 import MechVerif.Model.Bytecode
 import MechVerif.Model.Loader
+import MechVerif.Model.Emit
 namespace MechVerif.Driver
 open MechVerif.Crc MechVerif.Bytecode
 
@@ -161,7 +162,15 @@ def runC07 (fields : List String) (obs : String) : String × String × String :=
         let rej := ((List.range n).filter (fun k => !verifies (f.take k))).length
         let m := s!"rejected={rej}/{n}"
         (m, if obs == s!"rejected={n}/{n}" then "ok" else "bad:every truncation must be rejected", "-")
-  | ["rt", _] => eqv "same"
+  | ["rt", h] =>
+    -- the model loads the file and writes it again (Model/Emit.lean `toBytes`, theorem C07_file_roundtrip)
+    match bytesOfHex h with
+    | none => ("bad-case", "bad-case", "-")
+    | some f =>
+      let m := match Loader.load utf8Valid f with
+        | .ok L => if Loader.toBytes L == f then "same" else "diff"
+        | .error _ => "err"
+      (m, if obs == "same" then "ok" else "bad:decoding and re-encoding an emitted file must reproduce its bytes", "-")
   | ["instrs", t] =>
     let parsed := if t == "-" then some [] else (t.splitOn ";").mapM parseInstr
     match parsed with
